@@ -27,6 +27,7 @@ def build(asm, tier):
     asm.file('spec/bound_spec.rs')
     asm.file('spec/poly_value.rs')
     asm.file('spec/solution_spec.rs')
+    asm.file('spec/dep_spec.rs')
     # callee contracts proved elsewhere
     bu = {u.name: u for u in bound.units()}
     for n in ('BoundError::check', 'Bound::new', 'Default for Bound', 'Bound::lower', 'Bound::upper', 'Bound::contains', 'Bound::nearest_to_zero'):
@@ -35,20 +36,12 @@ def build(asm, tier):
     // Zero::zero for Function (v1_ext/function.rs) - body verified in C02
     #[verifier::external_body] pub fn zero() -> (r: v1::Function) ensures r == zero_fn() { unimplemented!() }
 }
-// eval_dependencies: frame + coverage part of its contract (proved on the real text in C04)
-#[verifier::external_body]
-pub fn eval_dependencies(dependencies: &HashMap<u64, v1::Function>, state: &mut v1::State) -> (r: Result<BTreeSet<u64>, VErr>)
-    ensures r is Ok ==> (forall|k: u64| #[trigger] old(state).entries@.contains_key(k) ==> final(state).entries@.contains_key(k))
-            && (forall|k: u64| #[trigger] dependencies@.contains_key(k) ==> final(state).entries@.contains_key(k))
-            && (forall|k: u64| #![trigger old(state).entries@[k]] #![trigger final(state).entries@[k]] old(state).entries@.contains_key(k) && !dependencies@.contains_key(k) ==> final(state).entries@[k] == old(state).entries@[k])
-            && (forall|k: u64| #[trigger] final(state).entries@.contains_key(k) ==> old(state).entries@.contains_key(k) || dependencies@.contains_key(k)),
-{ unimplemented!() }
-''', 'assumed callee contracts (Function::zero, eval_dependencies)')
+''', 'assumed callee contract (Function::zero)')
     asm.stubs.append(dict(unit='Function::zero', proved_in='C02'))
-    asm.stubs.append(dict(unit='eval_dependencies', proved_in='C04'))
-    asm.raw('} // mod lib\npub mod units {\n' + common.UNITS_USES + 'broadcast use super::lib::ax_zero_f64, super::lib::ax_variable_id_key_model, super::lib::lemma_out_hold_push;\nuse super::lib::v1::decision_variable::Kind;\n')
+    asm.raw('} // mod lib\npub mod units {\n' + common.UNITS_USES + 'broadcast use super::lib::ax_zero_f64, super::lib::ax_variable_id_key_model, super::lib::lemma_out_hold_push, super::lib::lemma_dep_ok_insert, super::lib::lemma_in_keys_drop_last, super::lib::lemma_in_keys_push, super::lib::lemma_in_keys_append_empty;\nuse super::lib::v1::decision_variable::Kind;\n')
     for u in (ev.linear_evaluate(), ev.quadratic_evaluate(), ev.polynomial_evaluate(), ev.function_evaluate()):
         asm.unit(u)
+    asm.unit(ev.eval_dependencies())
     for u in (ev.bound_try_from_v1bound(), ev.bound_try_from_dv(), ev.constraint_function(), ev.instance_objective(), ev.is_feasible(),
               ev.get_bounds(), ev.check_bound(), ev.constraint_evaluate(), ev.removed_constraint_evaluate(), ev.instance_evaluate()):
         asm.unit(u)
@@ -70,7 +63,7 @@ proof fn vacuity_pre(i: v1::Instance, st: Map<u64, F64>) requires
             'T4: prost accessors equality()/kind(): code -> variant, unknown -> Unspecified; Enum::X.into() = its code',
             'T4: generated structural Clone/Default for prost messages',
             'declared substitution: `if let HashMapEntry::Vacant(e) = m.entry(k) { .. e.insert(v) }` -> `if !m.contains_key(&k) { .. m.insert(k, v) }`',
-            'callee contracts proved in other files: eval_dependencies (C04), Function::zero (C02)',
+            'callee contract proved in another file: Function::zero (C02)',
             'T4: itertools::multizip = element-wise triples up to the shortest length (helper zip3)',
         ],
         assumptions=common.A1 + ['evaluated value of a constraint is characterised as in C01 (finite coefficients/values => exact real value)'],
